@@ -36,7 +36,7 @@ PROB = {
     'google': {'xref': '`nopeX`', 'param': 'Args:\n    zzX: nothing'},
     'numpy': {'xref': '`nopeX`', 'param': 'Parameters\n----------\nzzX: int\n    nothing'},
 }
-POSITIONS = ['p1l1', 'p1l2', 'p2', 'li', 'fb']
+POSITIONS = ['p1l1', 'p1l2', 'p2', 'li', 'fb', 'sections']
 OWNERS = ['module', 'class', 'function', 'method', 'attribute', 'inherited', 'reexported', 'classfield', 'classfield+inline', 'typefield+inline', 'ivar-two-sites', 'attr-redefined', 'classtypefield', 'modvarfield', 'modtypefield', 'class-redefined', 'function-redefined', 'class-redefined-both-bad']
 # (text on the opening line, leading lines below the quotes)
 LAYOUTS: List[Tuple[bool, List[str]]] = [(True, []), (False, []), (False, ['']), (False, ['', '']), (False, ['WS']), (False, ['TRAIL'])]
@@ -68,6 +68,13 @@ def body_for(fmt: str, kind: str, pos: str) -> Optional[Tuple[List[str], int, in
         if fmt in ('google', 'numpy'):
             return None
         return ['Para one.', '', f'{li_ind}- item one', f'{li_ind}- item two ' + p + ' end', '', 'After.'], 3, 3
+    if pos == 'sections':
+        # the problem sits in the last of several sections, after typed entries (which the napoleon formats expand into several fields)
+        if fmt == 'google':
+            return ['Para one.', '', 'Args:', '    a (int): first', '    b (str): second', '    c (float): third', '', 'Returns:', '    int: value ' + p + ' end'], 8, 0
+        if fmt == 'numpy':
+            return ['Para one.', '', 'Parameters', '----------', 'a : int', '    first', 'b : str', '    second', '', 'Returns', '-------', 'int', '    value ' + p + ' end'], 12, 0
+        return None
     if pos == 'fb':
         if fmt in ('google', 'numpy'):
             return None
@@ -312,7 +319,10 @@ def run_batch(fmt: str, batch: Sequence[Tuple[Any, ...]], res: Dict[str, Any]) -
             lo, hi = (bs, pl) if fmt in ('epytext', 'restructuredtext') else ext
             if not (lo <= nline <= hi):
                 rel = 'before' if nline < lo else 'after'
-                res['violations'].append(core.violation(f'wrong-line/{label}/{rel}/{laydesc}' + ('/' + pos if pos in ('li', 'fb') else ''),
+                # google / numpy: only "inside the docstring" is demanded, so owner and layout of the literal do not select different behaviour
+                wsig = (f'wrong-line/{fmt}/{kind}/{rel}-the-docstring/{pos}' if fmt in ('google', 'numpy')
+                        else f'wrong-line/{label}/{rel}/{laydesc}' + ('/' + pos if pos in ('li', 'fb') else ''))
+                res['violations'].append(core.violation(wsig,
                                                         f'{kind} planted at line {pl} (block starts at {bs}) of a {owner} docstring ({fmt}, layout {laydesc}, position {pos}, nest {nest}, raw {raw}): reported at {nline}: {msg}\n{src}', case))
         by_case.setdefault((kind, owner, pos, li, nest, raw, deco), {})[k] = sorted(nums)
         res['outcomes'].add((fmt, kind, len(got)))
